@@ -54,6 +54,8 @@ check("C14", "model_checking",
           {"name": "circular", "config": "A", "test": "helpers::buffers::verif::c14_circ::run"},
           {"name": "receiver", "config": "A", "test": "helpers::buffers::verif::c14_recv::run",
            "require": {"any": {"max_distinct_first_poll_orders": 6, "max_distinct_chunkings": 8}}},
+          {"name": "sender-e1", "config": "A", "test": "helpers::buffers::verif::c14_send::run",
+           "require": {"any": {"max_distinct_poll_order_prefixes": 6}}},
           {"name": "sender-sched", "config": "B", "test": "helpers::buffers::verif::c14_sched::run",
            "workers": {"quick": 16, "thorough": 16},
            "require": {"any": {"distinct:chunkings": 2}}},
@@ -84,3 +86,20 @@ check("C15", "model_checking",
            "SequentialFutures; order of results, exactly-once, window occupancy at every Pending return, polling of every "
            "in-flight task and termination after the first error are checked on every execution.",
       note="Bounds: n <= 6 (7), w <= 4 (5), one dependency edge, source Pending deviations <= 2.")
+
+check("C16", "model_checking",
+      "Batcher (records_per_batch 1..4, total 1..6): the explorer enumerates every interleaving of {record i requests validation "
+      "(any arrival permutation), poll a woken wait, batch b's check completes with verdict ok/fail (any batch order)} on the real "
+      "Batcher with a waker-tracking executor; oracle = reference model of batch membership. Plus every misuse history "
+      "(records 0..k arrived, then validate_record(x) for every x up to total+2*rpb+1) for totals <= 9. "
+      "states = executions; transitions = choice points.",
+      [{"name": "batcher", "config": "A", "test": "protocol::context::verif::c16::run",
+        "require": {"any": {"max_distinct_arrival_orders": 24, "out_of_order_batch_completions": 10}}}],
+      assumptions=["the batch check closure is modelled by a gate the harness completes; the real DZKP/MAC checks are C03/C04"],
+      exhaustive=True, engine="E1 choice",
+      technique="stateless exhaustive choice-tree exploration of the real Batcher (all arrival permutations x completion orders x "
+                "verdict vectors) against a reference model; exhaustive misuse-history enumeration",
+      text="Every arrival order of validation requests and every order/verdict of batch completion is executed on the real Batcher; "
+           "release only after the whole batch requested and was checked, verdict propagation, exactly-once checking with the "
+           "right contents, closing of the final partial batch and loud rejection of every misuse call are checked on each one.",
+      note="Bounds: <= 6 (7) records, batch size <= 4; totals <= 9 for misuse histories.")
